@@ -274,6 +274,12 @@ def order_from_keys(ctx: Ctx) -> None:
                             if nme not in tainted and nme not in perm:
                                 tainted.add(nme)
                                 changed = True
+                # a list grown from dependent values depends on them too (`acc.append(cfs[:, i])` is the loop form of a comprehension over cfs)
+                elif isinstance(a, ast.Call) and isinstance(a.func, ast.Attribute) and a.func.attr in ('append', 'extend') and isinstance(a.func.value, ast.Name) \
+                        and a.func.value.id not in tainted and a.func.value.id not in perm \
+                        and any(isinstance(x, ast.Name) and x.id in tainted for arg in a.args for x in ast.walk(arg)):
+                    tainted.add(a.func.value.id)
+                    changed = True
         defs = [a for a in walk_local(f.node) if isinstance(a, ast.Assign) and any(isinstance(t, ast.Name) and t.id in perm for t in a.targets)]
         ctx.require(len(defs) >= 2, f'{qual} defines its permutation')
         for n_def, a in enumerate(defs):
